@@ -196,3 +196,11 @@ func schemaNames(m map[*types.Named]bool) []string {
 	sort.Strings(out)
 	return out
 }
+
+func fnSet(fs []*ssa.Function) map[*ssa.Function]bool {
+	m := map[*ssa.Function]bool{}
+	for _, f := range fs {
+		m[f] = true
+	}
+	return m
+}
